@@ -192,7 +192,7 @@ META = dict(
     level="proof",
     trusted_base=["CBMC 6.11 incl. its function-pointer removal for TF(table, index, type) calls; minisat",
                   "probe module family: one module with an imported table and one with a defined table (enumerated shapes), argument values symbolic"],
-    assumptions=["recursion depth <= 5", "table of 8 slots; segments at offsets {imported global in 0..2, constant 5}"],
+    assumptions=["E/S emitter contracts: array.c's growth step enters through the contract stub of harness/e_expr.c (discharged on the real array.c by job A.ensure_capacity.4, realloc/calloc being CBMC's library models); stack heights <= 2^24, label stacks <= 2^16; the string builder is the ghost recorder (its real implementation is under contract in C10); operand-stack entries hold valid value types (validated module)", "recursion depth <= 5", "table of 8 slots; segments at offsets {imported global in 0..2, constant 5}"],
     explanation="For all argument values: imported calls receive the instance and the arguments in order, direct calls with five mixed-type parameters, calls under other operands, "
                 "self and mutual recursion, call_indirect through imported and defined tables on every initialised index, element segment placement with frame.",
 )
